@@ -6,6 +6,10 @@ props = [json.loads(l) for l in open(os.path.join(ROOT, "properties.jsonl"))]
 
 # id -> (level category, level text, note, technique, engine, design_ref)
 CHECKS = {
+ "C08": ("model_checking",
+         "The real h2 relay (Config.Proxy; tls.Dial replaced by a dial seam) runs between two frame-level endpoints over simnet under the gosim scheduler: all single-stream lifecycle shapes (1..3 header fragments x priority x padded/unpadded/empty DATA shapes x END_STREAM/trailers/RST/open) in both directions, duplex pairs with schedule exploration, all interleavings of two/three streams' lifecycles, byte-level transport segmentations and preface splits (with schedule exploration), receiver windows that block DATA while trailers and other streams' header blocks are pending, PUSH_PROMISE, PRIORITY, SETTINGS/PING/GOAWAY, HPACK table scenarios; oracle: per stream and direction the receiver's events (header blocks decoded with its own HPACK decoder in arrival order, DATA boundary-insensitive) equal the sender's.",
+         "Endpoints use the same x/net Framer as the relay; K<=3 streams; default schedule for pure input families, <=1/2 deviations elsewhere.",
+         "bounded-exhaustive frame-script enumeration + stateless schedule enumeration of the implementation (gosim)", "gosim", "DESIGN.md §7 C08"),
  "C17": ("model_checking",
          "All operation sequences up to length 6 (quick) / 7 (thorough) over a 9-operation alphabet are run on the real har.Logger and compared step by step with a list model; 2-3 thread scenarios on colliding ids are run under the gosim scheduler with every interleaving of the logger's lock operations enumerated and each recorded history checked for linearizability against the same model.",
          "Scheduling points are synchronisation operations only (lock/atomic/channel); ids {a,b,c}; bodiless request/response shapes.",
